@@ -149,3 +149,33 @@ def expand_nodes(G, attr="flow", length_attr=None):
     for u, v in G.edges():
         H.add_edge(ne[u][1], ne[v][0])
     return H, ne
+
+
+def rerun_presolve_off(case, tier="quick", G=None):
+    """Same construction with HiGHS presolve disabled.  HiGHS 1.15.1's presolve declares some feasible walk models
+    infeasible (reproduced on a clean Highs instance fed the exported MPS file: 'Presolve: Infeasible' vs optimal
+    with presolve off).  HiGHS is part of the trusted base, so a verdict that flips with presolve off is recorded
+    as inconclusive (solver artefact), never as a violation of flowpaths."""
+    kwargs = materialize_kwargs(case, tier)
+    so = dict(kwargs.get("solver_options") or {})
+    so["presolve"] = "off"
+    kwargs["solver_options"] = so
+    return run_model(case, tier, G=G, kwargs=kwargs)
+
+
+def solver_artifact(case, tier, r, objective_tol=1e-6):
+    """True if the solved status (or the objective) of run `r` changes when presolve is switched off."""
+    try:
+        r2 = rerun_presolve_off(case, tier)
+    except Exception:
+        return False
+    if r2.crashed:
+        return False
+    if bool(r2.solved) != bool(r.solved):
+        return True
+    if r.solved and r2.solved and r.objective is not None and r2.objective is not None:
+        try:
+            return abs(float(r.objective) - float(r2.objective)) > objective_tol * (1 + abs(float(r.objective)))
+        except Exception:
+            return False
+    return False
